@@ -107,6 +107,15 @@ Example memo_transparent_nonvacuous :
   /\ length (ms_match (snd (callm idt rid_id fp_id e_empty body1 true true 5 [] mempty nRoot e_empty))) = 5%nat.
 Proof. vm_compute. repeat split. Qed.
 
+(* the hypotheses of memo_transparent are satisfiable (here: the result id is the package itself) *)
+Example memo_transparent_hypotheses_satisfiable :
+  fp_determines fp_id /\ rid_determines_subtree idt rid_id e_empty body1.
+Proof.
+  split.
+  - intros k a b H. exact H.
+  - intros r m st e a t s m' st' e' a' t' s' _ _ H. exact H.
+Qed.
+
 (* P1 guard: WITHOUT m.touch on a memo hit the snapshot of "p" misses X (read
    only by the memoised "c"), so "p" under X=2 is answered with the package of
    X=1: transparency fails.  The statement above is therefore not vacuous. *)
